@@ -11,16 +11,22 @@ package ingest
 //@   frame-only
 //@   frame shared i.rowsCount, i.asyncBlocks guarded-by i.mutex
 
-// After the workers are done the blocks are put in offset order. Whatever the workers recorded stays stored:
+// After the workers are done the blocks are put in offset order (C01: whatever order the workers finished in, the table lists
+// its blocks by ascending offset). Whatever the workers recorded stays stored:
 // every block and block index named by the table is in the store.
 //@ func (*Inserter).sortBlocks
-//@   props C13
+//@   props C01 C13
+//@   sorted 1: a, b => o.asyncBlocks[a].Offset < o.asyncBlocks[b].Offset
+//@   ensures [C01] forall2(a, b, 0 <= a && a < b && b < len(o.asyncBlocks) ==> o.asyncBlocks[a].Offset <= o.asyncBlocks[b].Offset)
+//@   ensures [C01] forall(k, 0, len(o.asyncBlocks), o.tbl.Blocks[k] == o.asyncBlocks[k].Sum && o.tbl.BlockIndices[k] == o.asyncBlocks[k].IdxSum)
 //@   requires len(o.asyncBlocks) <= 16843010 && o.tbl != nil && forall(k, 0, len(o.asyncBlocks), member2(blkSet, o.db, sid(o.asyncBlocks[k].Sum)) && member2(blkIdxSet, o.db, sid(o.asyncBlocks[k].IdxSum)))
 //@   modifies o.tbl.Blocks, o.tbl.BlockIndices, o.asyncBlocks[:]
 //@   ensures len(o.tbl.Blocks) == len(o.tbl.BlockIndices) && forall(k, 0, len(o.tbl.Blocks), member2(blkSet, o.db, sid(o.tbl.Blocks[k])) && member2(blkIdxSet, o.db, sid(o.tbl.BlockIndices[k])))
 //@   loop 1 invariant iter <= n && n == len(o.asyncBlocks) && len(o.tbl.Blocks) == n && len(o.tbl.BlockIndices) == n && len(blkPKs) == n && o.tbl != nil
 //@   loop 1 invariant forall(k, 0, len(o.asyncBlocks), member2(blkSet, o.db, sid(o.asyncBlocks[k].Sum)) && member2(blkIdxSet, o.db, sid(o.asyncBlocks[k].IdxSum)))
 //@   loop 1 invariant forall(k, 0, iter, member2(blkSet, o.db, sid(o.tbl.Blocks[k])) && member2(blkIdxSet, o.db, sid(o.tbl.BlockIndices[k])))
+//@   loop 1 invariant [C01] forall2(a, b, 0 <= a && a < b && b < len(o.asyncBlocks) ==> o.asyncBlocks[a].Offset <= o.asyncBlocks[b].Offset)
+//@   loop 1 invariant [C01] forall(k, 0, iter, o.tbl.Blocks[k] == o.asyncBlocks[k].Sum && o.tbl.BlockIndices[k] == o.asyncBlocks[k].IdxSum)
 //@   loop 1 decreases n - iter
 
 // The table-building tail of ingest: after a crash at any store write, every table that is stored is usable (R3).
